@@ -1,6 +1,7 @@
 import ErgoVerif.Lemmas.PermSafe
 import ErgoVerif.Lemmas.HandshakeSec
 import ErgoVerif.Model.CookieSel
+import ErgoVerif.Model.NodeAccept
 /-!
 # C15 — remote access control
 
@@ -315,6 +316,73 @@ theorem C15_join_partial (c : Nat) (ps : List Past) (hwf : ∀ p ∈ ps, p.wf c)
     (∃ cJ cA sJ idn, Past.join cJ cA sJ idn ∈ ps ∧ cid = [.nonce idn] ∧ sj = [.nonce sJ]) ∨
     (∃ cI cA sI sA idA, Past.main cI cA sI sA idA ∈ ps ∧ cid = [.nonce sA] ∧ sj = [H [.nonce sI, .cookie c]]) :=
   join_accepted_origin c ps hwf adv cfg hcfg s id node cid sj dj hcid hsj hder.2.2 hok
+
+/-- **Join at node level.** What the replay adversary gains on a live node (NodeAccept mirrors
+    network.accept / connection.Join / enp.NewConnection): a Join accepted by the handshake never
+    registers a new connection (the result carries creation 0), and it is joined to a live connection
+    only if that connection's id is the id of a RECORDED Join or a recorded acceptor salt and the
+    adversary claims exactly that connection's peer name.  With connection ids distinct from salts
+    (both are fresh random strings) only the verbatim replay into the still-living connection remains:
+    this is finding D24; the type flaw D24b stops here. -/
+theorem C15_join_node_level (c : Nat) (ps : List Past) (hwf : ∀ p ∈ ps, p.wf c) (adv : Nat → Prop)
+    (cfg : Cfg) (hcfg : cfg.cookie = .cookie c) (s id : Atom) (node : Nat) (cid sj dj : Field)
+    (hcid : cid ≠ []) (hsj : sj ≠ [])
+    (hder : DerivM (Known ps) adv (.join node cid sj dj)) (tbl : NodeAccept.Table) :
+    (∀ peer, NodeAccept.acceptLink tbl cfg s id [.join node cid sj dj] ≠ .registered peer) ∧
+    (∀ peer, NodeAccept.acceptLink tbl cfg s id [.join node cid sj dj] = .joined peer →
+      peer = node ∧ tbl node = some cid ∧
+      ((∃ cJ cA sJ idn, Past.join cJ cA sJ idn ∈ ps ∧ cid = [.nonce idn]) ∨
+       (∃ cI cA sI sA idA, Past.main cI cA sI sA idA ∈ ps ∧ cid = [.nonce sA]))) := by
+  by_cases hok : isOk (accept cfg s id [.join node cid sj dj]).res = true
+  · have hdj := (accept_join_ok cfg s id node cid sj dj []).mp hok
+    subst hdj
+    have hres := accept_join_result cfg s id node cid sj []
+    constructor
+    · intro peer h
+      simp only [NodeAccept.acceptLink, hres, NodeAccept.accepted] at h
+      split at h
+      · cases h
+      · split at h
+        · split at h <;> cases h
+        · simp at h
+    · intro peer h
+      simp only [NodeAccept.acceptLink, hres, NodeAccept.accepted] at h
+      split at h
+      · cases h
+      · split at h
+        · rename_i idl htl
+          split at h
+          · rename_i hid
+            injection h with h
+            subst h
+            refine ⟨rfl, by rw [htl, hid], ?_⟩
+            rcases C15_join_partial c ps hwf adv cfg hcfg s id node cid sj _ hcid hsj hder hok with
+              ⟨cJ, cA, sJ, idn, hp, h1, _⟩ | ⟨cI, cA, sI, sA, idA, hp, h1, _⟩
+            · exact Or.inl ⟨cJ, cA, sJ, idn, hp, h1⟩
+            · exact Or.inr ⟨cI, cA, sI, sA, idA, hp, h1⟩
+          · cases h
+        · split at h <;> cases h
+  · have : ∃ e, (accept cfg s id [.join node cid sj dj]).res = .error e := by
+      cases hr : (accept cfg s id [.join node cid sj dj]).res with
+      | ok r => simp [hr, isOk] at hok
+      | error e => exact ⟨e, rfl⟩
+    obtain ⟨e, he⟩ := this
+    constructor <;> intro peer h <;> simp [NodeAccept.acceptLink, he] at h
+
+/-- a completed MAIN handshake registers a connection under the name the peer introduced itself with
+    (or is dropped when a connection under that name already exists: the fresh id cannot match); the
+    dialling side keeps the connection only if that name is the one it dialled -/
+theorem C15_main_node_level (cI cA : Cfg) (sI sA idA : Atom) (rI rA : Result) (tbl : NodeAccept.Table)
+    (hI : (honest cI cA sI sA idA).resI = .ok rI) (hA : (honest cI cA sI sA idA).resA = .ok rA)
+    (hname : cI.info.name ≠ 0) (hcr : cI.info.creation ≠ 0) (hnew : tbl cI.info.name = none) (wanted : Nat) :
+    NodeAccept.accepted tbl rA = .registered cI.info.name ∧
+    (NodeAccept.connected wanted rI = true ↔ wanted = cA.info.name) := by
+  have hag := C15_agreement cI cA sI sA idA rI rA hI hA
+  obtain ⟨h1, h2, _, h4, _⟩ := hag
+  constructor
+  · simp [NodeAccept.accepted, h2, hname, hnew, h4, hcr]
+  · simp only [NodeAccept.connected, h1, beq_iff_eq]
+    exact eq_comm
 
 /-- an honest Join with the right cookie is accepted, one with another cookie is refused (non-vacuity
     of the Join model in both directions) -/
